@@ -49,6 +49,7 @@ TRACE_FUNCS = {
     "get_supercurrent": "update",
     "append": "update",
     "save_time_step": "writer",
+    "_save_time_step": "writer",
     "save_step": "writer",
     "_run_stage": "loop",
     "clear": "loop",
@@ -69,6 +70,12 @@ class SimStepCap(Exception):
 
 
 def _payload(kind, tag):
+    p = _payload0(kind, tag)
+    _payload.last = p
+    return p
+
+
+def _payload0(kind, tag):
     if kind == "sigint":
         return KeyboardInterrupt(f"injected:{tag}")
     if kind == "enospc":
@@ -137,6 +144,7 @@ class History:
         self.inputs = []
         self.construct_error = None
         self.line_counts = {}
+        self.fire_info = None
         self.solver = None
         self.device = None
         self.tree = None
@@ -241,6 +249,17 @@ class Sim:
     # ------------------------------------------------------------------ fault plumbing
     def _fire(self, f, tag):
         f["_fired"] = True
+        runner = getattr(self, "runner", None)
+        self.h.fire_info = {
+            "tag": tag,
+            "kind": f["kind"],
+            "stage": self.stage,
+            "loop_step": int(runner.state.get("step", -1)) if runner is not None else None,
+            "in_update": self.cur is not None,
+            "in_writer": bool(self.h.frames) and not self.h.frames[-1]["completed"] and self.h.frames[-1].get("open", False),
+            "n_done": dict(self.n_done),
+            "frames_completed": sum(1 for fr in self.h.frames if fr["completed"]),
+        }
         self.h.faults_fired.append({k: v for k, v in f.items() if not k.startswith("_")})
         self.h.ev("fault", f["kind"], tag)
         self.h.probe("fault:" + f["kind"])
@@ -443,7 +462,11 @@ class Sim:
                 h.frames.append(rec)
                 h.ev("frame", rec["number"], step, repr(rec["time"]), digest_arrays(*[rec["data"][k] for k in sorted(rec["data"])]))
                 sim.fault_at("save.before", step)
-                r = super().save_time_step(state, data, running_state)
+                rec["open"] = True
+                try:
+                    r = super().save_time_step(state, data, running_state)
+                finally:
+                    rec["open"] = False
                 rec["completed"] = True
                 sim._call_checkers("on_frame", rec)
                 sim.fault_at("save.after", step)
